@@ -34,6 +34,7 @@ package decorator
 //@ ensures at_newline: k > 0 ==> r.cursorAtNewLine == r.cursor
 //@ ensures at_newline_kept: k == 0 ==> r.cursorAtNewLine == old(r.cursorAtNewLine)
 //@ ensures inv: r.inv()
+//@ ensures lines_array_old_or_fresh: arr(r.lines) == old(arr(r.lines)) || !wasAllocated(arr(r.lines))
 //@ loop 1 invariant count: 0 <= $i && ($i <= $n || $i == 0)
 //@ loop 1 invariant length: len(r.lines) == entry(len(r.lines)) + $i
 //@ loop 1 invariant cursor: r.cursor == entry(r.cursor) + 2*$i
@@ -41,6 +42,7 @@ package decorator
 //@ loop 1 invariant prefix: forall j int :: 0 <= j && j < entry(len(r.lines)) ==> r.lines[j] == entry(r.lines[j])
 //@ loop 1 invariant at_newline: ($i > 0 ==> r.cursorAtNewLine == r.cursor) && ($i == 0 ==> r.cursorAtNewLine == entry(r.cursorAtNewLine))
 //@ loop 1 invariant inv: r.inv()
+//@ loop 1 invariant lines_array_old_or_fresh: arr(r.lines) == old(arr(r.lines)) || !wasAllocated(arr(r.lines))
 
 //@ pred (r *FileRestorer) linesSorted() bool {
 //@   len(r.lines) >= 1 && r.lines[0] == 0 &&
@@ -61,6 +63,7 @@ package decorator
 //@ ensures lines_prefix: len(r.lines) >= old(len(r.lines)) && (forall j int :: 0 <= j && j < old(len(r.lines)) ==> r.lines[j] == old(r.lines[j]))
 //@ ensures comments_prefix: len(r.comments) >= old(len(r.comments)) && (forall j int :: 0 <= j && j < old(len(r.comments)) ==> r.comments[j] == old(r.comments[j]))
 //@ ensures ends_at_newline: len(decorations) > 0 && isBreak(decorations[len(decorations)-1]) && !isFileStart(node, name) ==> r.cursorAtNewLine == r.cursor
+//@ ensures lines_array_old_or_fresh: arr(r.lines) == old(arr(r.lines)) || !wasAllocated(arr(r.lines))
 //@ ensures empty_is_noop: len(decorations) == 0 && !isFileStart(node, name) ==> r.cursor == old(r.cursor) && r.cursorAtNewLine == old(r.cursorAtNewLine) && len(r.lines) == old(len(r.lines)) && len(r.comments) == old(len(r.comments))
 //@ loop 1 invariant inv: r.inv()
 //@ loop 1 invariant cursor_monotone: r.cursor >= entry(r.cursor)
@@ -69,6 +72,8 @@ package decorator
 //@ loop 1 invariant at_newline: $i > 0 && isBreak(decorations[$i-1]) ==> r.cursorAtNewLine == r.cursor
 //@ loop 1 invariant untouched: $i == 0 ==> r.cursor == entry(r.cursor) && r.cursorAtNewLine == entry(r.cursorAtNewLine) && len(r.lines) == entry(len(r.lines)) && len(r.comments) == entry(len(r.comments))
 //@ loop 1 invariant index: 0 <= $i && $i <= len(decorations)
+//@ loop 1 invariant lines_array_old_or_fresh: arr(r.lines) == old(arr(r.lines)) || !wasAllocated(arr(r.lines))
+//@ loop 2 invariant lines_array_old_or_fresh: arr(r.lines) == old(arr(r.lines)) || !wasAllocated(arr(r.lines))
 //@ loop 2 invariant sorted: r.linesSorted()
 //@ loop 2 invariant pos: 0 - 1 <= $pos && $pos < len(d)
 //@ loop 2 invariant last: r.lines[len(r.lines)-1] + r.base <= r.cursor + $pos || r.lines[len(r.lines)-1] + r.base < r.cursor || (len(r.lines) == 1 && r.cursor == r.base)
@@ -84,9 +89,11 @@ package decorator
 //@ ensures sorted: r.linesSorted()
 //@ ensures lines_prefix: len(r.lines) >= old(len(r.lines)) && (forall j int :: 0 <= j && j < old(len(r.lines)) ==> r.lines[j] == old(r.lines[j]))
 //@ ensures last: r.lines[len(r.lines)-1] + r.base < r.cursor + len(text) || r.lines[len(r.lines)-1] + r.base < r.cursor || (len(r.lines) == 1 && r.cursor == r.base)
+//@ ensures lines_array_old_or_fresh: arr(r.lines) == old(arr(r.lines)) || !wasAllocated(arr(r.lines))
 //@ ensures single_line_is_noop: !(hasPrefix(text, "`") && strContains(text, "\n")) ==> len(r.lines) == old(len(r.lines))
 //@ loop 1 invariant sorted: r.linesSorted()
 //@ loop 1 invariant pos: 0 - 1 <= $pos && $pos < len(text)
+//@ loop 1 invariant lines_array_old_or_fresh: arr(r.lines) == old(arr(r.lines)) || !wasAllocated(arr(r.lines))
 //@ loop 1 invariant last: r.lines[len(r.lines)-1] + r.base <= r.cursor + $pos || r.lines[len(r.lines)-1] + r.base < r.cursor || (len(r.lines) == 1 && r.cursor == r.base)
 //@ loop 1 invariant lines_prefix: len(r.lines) >= entry(len(r.lines)) && (forall j int :: 0 <= j && j < entry(len(r.lines)) ==> r.lines[j] == entry(r.lines[j]))
 
@@ -131,6 +138,7 @@ package decorator
 //@ tracks cursor_monotone: r.cursor >= old(r.cursor)
 //@ tracks lines_prefix: len(r.lines) >= old(len(r.lines)) && (forall j int :: 0 <= j && j < old(len(r.lines)) ==> r.lines[j] == old(r.lines[j]))
 //@ tracks comments_prefix: len(r.comments) >= old(len(r.comments)) && (forall j int :: 0 <= j && j < old(len(r.comments)) ==> r.comments[j] == old(r.comments[j]))
+//@ tracks lines_array_old_or_fresh: arr(r.lines) == old(arr(r.lines)) || !wasAllocated(arr(r.lines))
 //@ tracks ast_map_grows: forall k dst.Node :: {has(r.Ast.Nodes, k)} old(has(r.Ast.Nodes, k)) ==> has(r.Ast.Nodes, k) && r.Ast.Nodes[k] == old(r.Ast.Nodes[k])
 //@ tracks dst_map_grows: forall k ast.Node :: {has(r.Dst.Nodes, k)} old(has(r.Dst.Nodes, k)) ==> has(r.Dst.Nodes, k) && r.Dst.Nodes[k] == old(r.Dst.Nodes[k])
 //@ modifies r.cursor, r.lines, r.cursorAtNewLine, r.comments, elems(int), elems(*ast.CommentGroup), elems(*ast.Comment), heap(ast.Field.Comment), heap(ast.ImportSpec.Comment), heap(ast.ValueSpec.Comment), heap(ast.TypeSpec.Comment), heap(ast.CommentGroup.List), heap(ast.Comment.Slash), heap(ast.Comment.Text), map(dst.Node, ast.Node), map(ast.Node, dst.Node), map(*dst.Object, *ast.Object), map(*ast.Object, *dst.Object), map(*dst.Scope, *ast.Scope), map(*ast.Scope, *dst.Scope), map(*ast.Object, dst.Node), newobjects
@@ -139,6 +147,7 @@ package decorator
 //@ ensures cursor_monotone: r.cursor >= old(r.cursor)
 //@ ensures lines_prefix: len(r.lines) >= old(len(r.lines)) && (forall j int :: 0 <= j && j < old(len(r.lines)) ==> r.lines[j] == old(r.lines[j]))
 //@ ensures comments_prefix: len(r.comments) >= old(len(r.comments)) && (forall j int :: 0 <= j && j < old(len(r.comments)) ==> r.comments[j] == old(r.comments[j]))
+//@ ensures lines_array_old_or_fresh: arr(r.lines) == old(arr(r.lines)) || !wasAllocated(arr(r.lines))
 //@ ensures mapped: r.Ast.Nodes[n] == result && has(r.Ast.Nodes, n)
 //@ ensures mapped_back: !old(has(r.Ast.Nodes, n)) ==> r.Dst.Nodes[result] == n && has(r.Dst.Nodes, result)
 //@ ensures result_not_nil: ref(result) != 0 && ref(n) != 0
@@ -156,6 +165,7 @@ package decorator
 //@ foreach invariant cursor_monotone: r.cursor >= entry(r.cursor)
 //@ foreach invariant lines_prefix: len(r.lines) >= entry(len(r.lines)) && (forall j int :: 0 <= j && j < entry(len(r.lines)) ==> r.lines[j] == entry(r.lines[j]))
 //@ foreach invariant comments_prefix: len(r.comments) >= entry(len(r.comments)) && (forall j int :: 0 <= j && j < entry(len(r.comments)) ==> r.comments[j] == entry(r.comments[j]))
+//@ foreach invariant lines_array_old_or_fresh: arr(r.lines) == old(arr(r.lines)) || !wasAllocated(arr(r.lines))
 //@ foreach invariant ast_map_grows: forall k dst.Node :: {has(r.Ast.Nodes, k)} entry(has(r.Ast.Nodes, k)) ==> has(r.Ast.Nodes, k) && r.Ast.Nodes[k] == entry(r.Ast.Nodes[k])
 //@ foreach invariant dst_map_grows: forall k ast.Node :: {has(r.Dst.Nodes, k)} entry(has(r.Dst.Nodes, k)) ==> has(r.Dst.Nodes, k) && r.Dst.Nodes[k] == entry(r.Dst.Nodes[k])
 //@ case Package
@@ -164,6 +174,7 @@ package decorator
 //@ loop 1 invariant cursor_monotone: r.cursor >= entry(r.cursor)
 //@ loop 1 invariant lines_prefix: len(r.lines) >= entry(len(r.lines)) && (forall j int :: 0 <= j && j < entry(len(r.lines)) ==> r.lines[j] == entry(r.lines[j]))
 //@ loop 1 invariant comments_prefix: len(r.comments) >= entry(len(r.comments)) && (forall j int :: 0 <= j && j < entry(len(r.comments)) ==> r.comments[j] == entry(r.comments[j]))
+//@ loop 1 invariant lines_array_old_or_fresh: arr(r.lines) == old(arr(r.lines)) || !wasAllocated(arr(r.lines))
 //@ loop 1 invariant ast_map_grows: forall k dst.Node :: {has(r.Ast.Nodes, k)} entry(has(r.Ast.Nodes, k)) ==> has(r.Ast.Nodes, k) && r.Ast.Nodes[k] == entry(r.Ast.Nodes[k])
 //@ loop 1 invariant dst_map_grows: forall k ast.Node :: {has(r.Dst.Nodes, k)} entry(has(r.Dst.Nodes, k)) ==> has(r.Dst.Nodes, k) && r.Dst.Nodes[k] == entry(r.Dst.Nodes[k])
 //@ loop 2 invariant inv: r.inv()
@@ -171,6 +182,7 @@ package decorator
 //@ loop 2 invariant cursor_monotone: r.cursor >= entry(r.cursor)
 //@ loop 2 invariant lines_prefix: len(r.lines) >= entry(len(r.lines)) && (forall j int :: 0 <= j && j < entry(len(r.lines)) ==> r.lines[j] == entry(r.lines[j]))
 //@ loop 2 invariant comments_prefix: len(r.comments) >= entry(len(r.comments)) && (forall j int :: 0 <= j && j < entry(len(r.comments)) ==> r.comments[j] == entry(r.comments[j]))
+//@ loop 2 invariant lines_array_old_or_fresh: arr(r.lines) == old(arr(r.lines)) || !wasAllocated(arr(r.lines))
 //@ loop 2 invariant ast_map_grows: forall k dst.Node :: {has(r.Ast.Nodes, k)} entry(has(r.Ast.Nodes, k)) ==> has(r.Ast.Nodes, k) && r.Ast.Nodes[k] == entry(r.Ast.Nodes[k])
 //@ loop 2 invariant dst_map_grows: forall k ast.Node :: {has(r.Dst.Nodes, k)} entry(has(r.Dst.Nodes, k)) ==> has(r.Dst.Nodes, k) && r.Dst.Nodes[k] == entry(r.Dst.Nodes[k])
 //@ case FuncDecl
